@@ -399,7 +399,11 @@ def greedyOKB (t : Table) (len : Int → Int → Nat) (segs : List (List Int)) :
 
 The docstring: "only nodes that are in the mask will be considered for pruning".  A node can be cut away
 (or moved) only if it and everything distal to it is masked: `inR k` iff the whole subtree of `k` is masked
-and `k` is within `size` of all its tips.  Without a mask this is `exactPrune`. -/
+and `k` is within `size` of all its tips.  Without a mask this is `exactPrune`.  This is what
+`_prune_twigs_precise` computes: with a mask the Dijkstra distances to the distal leafs are taken on the
+subgraph of masked nodes (`g.subgraph(mask_nodes)`), so a node is in range only if every distal leaf is reached
+through masked nodes within `size`.  (Historical: before that repair only the node itself had to be masked;
+unmasked nodes distal to it were removed and masked nodes below them could survive as detached roots.) -/
 
 /-- Everything distal to `k` (including `k`) is in the mask. -/
 def allBelowMasked (t : Table) (mask : Option (List Int)) (k : Int) : Bool :=
@@ -423,29 +427,6 @@ def exactPruneG (t : Table) (len : Int → Int → Nat) (size : Rat) (adm : Int 
 
 def exactPruneM (t : Table) (len : Int → Int → Nat) (size : Rat) (mask : Option (List Int)) : List (Int × Int × Rat) :=
   exactPruneG t len size (allBelowMasked t mask)
-
-/-- What `_prune_twigs_precise` does with a mask, literally (a *variant*, used only to attribute a
-disagreement to an open finding): `candidates ∩ mask_nodes` makes a node "in range" when it is masked
-itself — unmasked nodes distal to it are ignored; `~parent_id.isin(in_range)` removes a row when its
-*parent* is in range; survivors whose parent went become roots; only masked `type == "end"` rows are
-moved.  Rows are `(id, parent after orphan repair, τ)`. -/
-def exactPruneAW (t : Table) (len : Int → Int → Nat) (size : Rat) (mask : Option (List Int)) : List (Int × Int × Rat) :=
-  let h : Int → Rat := fun i => (heightOf t len (t.length + 1) i : Nat)
-  let inM : Int → Bool := fun i => match mask with | some m => m.contains i | none => true
-  let inR : Int → Bool := fun i => inM i && decide (h i ≤ size)
-  let gone : Int → Bool := fun i => match find? t i with
-    | some n => decide (0 ≤ n.parent) && inR n.parent
-    | none => true
-  t.filterMap fun n =>
-    if n.parent < 0 then some (n.id, n.parent, 0)
-    else if inR n.parent then none
-    else if gone n.parent then some (n.id, -1, 0)
-    else if !inR n.id then some (n.id, n.parent, 0)
-    else
-      let tau : Rat := size - h n.id
-      let L : Rat := (len n.id n.parent : Nat)
-      if L < tau then none
-      else some (n.id, n.parent, if L = 0 then 0 else tau / L)
 
 /-- As written (`_prune_twigs_precise`): a node is *in range* when every leaf distal to it is within
 `size` of cable (Dijkstra with `cutoff=size` on the reversed graph). -/
